@@ -870,13 +870,23 @@ class Layout:
         self.hints = hints
         self.comment_quotes = comment_quotes
         self.sl_comments = sl_comments
+        self.comment_log = []
+
+    def comment(self):
+        c = self._comment()
+        self.comment_log.append(c)
+        return c
+
+    def take_comments(self):
+        c, self.comment_log = self.comment_log, []
+        return c
 
     def one_ws(self):
         if self.ws == 'single':
             return ' '
         return self.rng.choice(WS_CHOICES)
 
-    def comment(self):
+    def _comment(self):
         rng = self.rng
         body = rng.choice(COMMENT_BODIES)
         if self.comment_quotes and rng.random() < 0.5:
@@ -895,8 +905,10 @@ class Layout:
         return '/*' + ('+' if hint else ' ' if rng.random() < 0.7 else '') \
             + body + (' ' if rng.random() < 0.7 else '') + '*/'
 
-    def gap(self, cls, first=False):
-        """Text for one inter-token gap."""
+    def gap(self, cls, first=False, after_op=False):
+        """Text for one inter-token gap. after_op: the previous token is
+        an operator; the lexer fuses operator characters greedily ('%--',
+        '//*'), so a comment must not follow it directly."""
         rng = self.rng
         if cls == 'none':
             return ''
@@ -908,8 +920,8 @@ class Layout:
             if cls == 'req':
                 return self.one_ws()
             return '' if rng.random() < 0.5 else self.one_ws()
-        for _ in range(ncom):
-            if rng.random() < 0.7:
+        for k in range(ncom):
+            if rng.random() < 0.7 or (after_op and k == 0):
                 parts.append(self.one_ws())
             parts.append(self.comment())
         if rng.random() < 0.7:
@@ -966,7 +978,8 @@ def render_statement(stmt, layout, out, gaps=None, gap_presence=None):
         elif gaps is not None:
             g = gaps[i]
         else:
-            g = layout.gap(tok.gap)
+            g = layout.gap(tok.gap,
+                           after_op=stmt.toks[i - 1].kind in ('op', 'cmp'))
             if gap_presence is not None and tok.gap == 'opt':
                 if not gap_presence[i]:
                     g = ''
@@ -1002,6 +1015,17 @@ def separator(layout, rng, final=False, allow_comments=True):
     return ''.join(parts)
 
 
+def _locate(chunk, base, comments, sink):
+    """chunk consists of whitespace and the given comments, in order."""
+    pos = 0
+    for c in comments:
+        j = chunk.find(c, pos)
+        if j < 0:
+            return
+        sink.append((base + j, base + j + len(c)))
+        pos = j + len(c)
+
+
 class Script:
     """A rendered multi-statement script with all derivation spans."""
 
@@ -1014,12 +1038,32 @@ class Script:
         self.semis = []
         self.gaps = []
         k = len(stmts)
+        self.comment_spans = []
+        layout.take_comments()
         lead = rng.choice(['', '', ' ', '\n', '  \n'])
+        if sep_comments and layout.comments and rng.random() < 0.15:
+            lead += layout.comment() + rng.choice(['', ' ', '\n'])
+        _locate(lead, 0, layout.take_comments(), self.comment_spans)
         out.append(lead)
         for i, st in enumerate(stmts):
             spans, used = render_statement(st, layout, out)
             self.tok_spans.append(spans)
             self.gaps.append(used)
+            coms = layout.take_comments()
+            ci = 0
+            for ti, gtext in enumerate(used):
+                n = 0
+                # comments of this gap: consume as many as occur in it
+                pos = 0
+                base = spans[ti][0] - len(gtext)
+                while ci < len(coms):
+                    j = gtext.find(coms[ci], pos)
+                    if j < 0:
+                        break
+                    self.comment_spans.append((base + j,
+                                               base + j + len(coms[ci])))
+                    pos = j + len(coms[ci])
+                    ci += 1
             last = i == k - 1
             fs = final_semicolon if final_semicolon is not None \
                 else rng.random() < 0.6
@@ -1036,10 +1080,29 @@ class Script:
             self.stmt_spans.append((spans[0][0], end))
             if not last:
                 sep = separator(layout, rng, allow_comments=sep_comments)
+                _locate(sep, sum(len(c) for c in out),
+                        layout.take_comments(), self.comment_spans)
                 out.append(sep)
             else:
                 out.append(rng.choice(['', '', '\n', ' ', ' \n\n']))
         self.text = ''.join(out)
+
+    def regions(self):
+        """Opaque regions from the derivation: (kind, start, end) with the
+        delimiters included."""
+        out = []
+        for si, st in enumerate(self.stmts):
+            spans = self.tok_spans[si]
+            for ti, t in enumerate(st.toks):
+                if t.kind in ('str', 'qname', 'bname', 'dollar'):
+                    out.append((t.kind, spans[ti][0], spans[ti][1]))
+            for o, c in st.parens:
+                out.append(('paren', spans[o][0], spans[c][1]))
+        for a, b in self.comment_spans:
+            kind = 'comment_ml' if self.text.startswith('/*', a) \
+                else 'comment_sl'
+            out.append((kind, a, b))
+        return out
 
     def features(self):
         f = set()
